@@ -84,7 +84,9 @@ impl<'a> RenumVisitor<'a> {
             Integer(col, n) => (col, *n as f64),
             _ => return,
         };
-        if n > LineNumber::max_value() as f64 {
+        // An operand that was not written (RESTORE, RUN, LIST and DELETE defaults) has
+        // an empty column range or the -1 sentinel; it is not a reference to a line.
+        if col.start == col.end || n < 0.0 || n > LineNumber::max_value() as f64 {
             return;
         }
         let n = n as u16;
